@@ -105,6 +105,38 @@ def finish_worker(w, timeout):
     return recs
 
 
+# Commands that exceeded their time limit (machine load): the driver aborts only that behaviour and runs it once more
+# at the end of its worker.  A behaviour that times out twice, or more than 0.5 % of all behaviours timing out, is a
+# tool error; anything less is counted in the evidence (coverage.tool_timeouts) and nothing of the aborted attempt
+# is compared, judged or fed to the trace spec.
+TIMEOUTS = {"behaviours_run": 0, "timed_out_once": [], "limit": 0.005}
+
+
+def note_timeouts(recs):
+    TIMEOUTS["behaviours_run"] += len(recs)
+    twice = []
+    for r in recs:
+        if r.get("timeouts"):
+            entry = {"id": r["id"], "attempts": [{"argv": t["argv"], "timeout_s": t["timeout"],
+                                                   "processes": t["processes"][:8]} for t in r["timeouts"]]}
+            if r.get("aborted"):
+                twice.append(entry)
+            else:
+                TIMEOUTS["timed_out_once"].append(entry)
+                util.log("setup tool timed out once (re-run succeeded): %s" % json.dumps(entry)[:600])
+    if twice:
+        raise util.ToolError("setup tool timed out twice on the same behaviour: %s" % json.dumps(twice)[:2000])
+
+
+def check_timeout_rate(c):
+    n, k = TIMEOUTS["behaviours_run"], len(TIMEOUTS["timed_out_once"])
+    c.extra["tool_timeouts"] = {"count": k, "behaviours_run": n, "re_run_succeeded": k,
+                                "detail": TIMEOUTS["timed_out_once"][:5]}
+    if k > TIMEOUTS["limit"] * n:
+        raise util.ToolError("%d of %d behaviours hit the setup tool's time limit (> 0.5%%): %s"
+                             % (k, n, json.dumps(TIMEOUTS["timed_out_once"][:3])[:1500]))
+
+
 def replay_many(setup_bin, behaviours, seed, workers, argv=None, timeout=3000, tag="w"):
     """behaviours: [{id, init, cmds, trace?}] -> {id: observation record}"""
     if not behaviours:
@@ -122,6 +154,7 @@ def replay_many(setup_bin, behaviours, seed, workers, argv=None, timeout=3000, t
             err = err or ex
     if err:
         raise err
+    note_timeouts(list(out.values()))
     return out
 
 
@@ -534,6 +567,7 @@ def _run(c):
         except util.ToolError as ex:
             c.extra["debug_profile_restore"] = {"error": str(ex)[:300]}
 
+    check_timeout_rate(c)
     c.exhaustive = (skipped == 0 and not drift and not c.violations)
     c.rule = ("S->I: TLC enumerates every behaviour of Setup.tla with N commands from all six initial states "
               "(quick: every 3-command sequence extended by one seeded 4th command; thorough: every 4-command sequence plus "
